@@ -257,14 +257,24 @@ class Scalar(Part):
             alg.options['algorithm'] = {"bobyqa": an.LN_BOBYQA, "neldermead": an.LN_NELDERMEAD, "cobyla": an.LN_COBYLA}[case["lib"].split("-")[1]]
         alg.options['n_iterations'] = case["iters"]
         alg.options['verbose_level'] = 0
-        ev = alg.evaluator
-        orig = ev.evaluate_scalar
+        # observed where the optimiser gets its value: SciPy is handed evaluator.evaluate_scalar itself, NLopt the wrapper's _function
+        if case["lib"].startswith("scipy"):
+            ev = alg.evaluator
+            orig = ev.evaluate_scalar
 
-        def wrapped(x):
-            r = orig(x)
-            queries.append((list(map(float, x)), float(r)))
-            return r
-        ev.evaluate_scalar = wrapped
+            def wrapped(x):
+                r = orig(x)
+                queries.append((list(map(float, x)), float(r)))
+                return r
+            ev.evaluate_scalar = wrapped
+        else:
+            origf = alg._function
+
+            def spy(x, grad):
+                r = origf(x, grad)
+                queries.append((list(map(float, x)), float(r)))
+                return r
+            alg._function = spy
         alg.run()
         if not queries:
             raise Skip()
